@@ -142,17 +142,49 @@ func (h *history) op(st *job.Step, ev *job.Event) {
 			}
 			applied = append(applied, kv{key, o, obj})
 		}
-		if err := pe.SetResources(nps, pods, nss); err != nil {
-			// partially applied batch: the model cannot know how far it got. Stop here.
-			ev.OpErr = err.Error()
+		// SetResources is documented as InsertObject over namespaces, then policies, then pods. The model
+		// applies the same order and stops at the first element an InsertObject would reject for a reason
+		// the model can see (a policy name that is already present, a pod that was never scheduled).
+		var order []kv
+		for _, k := range []string{"Namespace", "NetworkPolicy", "Pod"} {
+			for _, a := range applied {
+				if a.o.Kind == k {
+					order = append(order, a)
+				}
+			}
+		}
+		firstBad := -1
+		seen := map[string]bool{}
+		for i, a := range order {
+			_, dup := h.model[a.key]
+			if a.o.Kind == "NetworkPolicy" && (dup || seen[a.key]) {
+				firstBad = i
+				break
+			}
+			if p, ok := a.p.(*corev1.Pod); ok && (p.Status.HostIP == "" || len(p.Status.PodIPs) == 0) {
+				firstBad = i
+				break
+			}
+			seen[a.key] = true
+		}
+		err := pe.SetResources(nps, pods, nss)
+		if (err != nil) != (firstBad >= 0) {
+			// the batch failed (or succeeded) for a reason the model does not know: state unknown, stop
+			if err != nil {
+				ev.OpErr = err.Error()
+			}
 			h.aborted = true
 			return
 		}
-		for _, a := range applied {
+		if firstBad >= 0 {
+			ev.OpErr = err.Error()
+			order = order[:firstBad]
+		}
+		for _, a := range order {
 			h.model[a.key] = a.o
 			h.ptrs[a.key] = a.p
 		}
-		ev.OK = true
+		ev.OK = firstBad < 0
 	case "clear":
 		pe.ClearResources()
 		h.model = map[string]job.Obj{}
